@@ -32,6 +32,16 @@ _i['FILEDESC'] = "".ljust(80)
 _i['HISTORY'] = ""
 
 
+def _timedelta2tstep(dt):
+    """
+    time step H..HMMSS of a timedelta; the hours are not limited to one day
+    (a daily step is 240000)
+    """
+    seconds = int(round(dt.total_seconds()))
+    return (seconds // 3600 * 10000 + seconds % 3600 // 60 * 100 +
+            seconds % 60)
+
+
 def _varlist2keys(varliststr):
     """
     names in a VAR-LIST string: 16 character fields without a separator,
@@ -559,9 +569,7 @@ Varable failures: {var_failed}
                 dt = np.diff(times)
                 if not (dt[0] == dt).all():
                     warn('New time is unstructured')
-                outf.TSTEP = int(
-                    (datetime.datetime(1900, 1, 1, 0) +
-                     dt[0]).strftime('%H%M%S'))
+                outf.TSTEP = _timedelta2tstep(dt[0])
 
         outf.updatemeta()
         return outf
@@ -798,12 +806,7 @@ Varable failures: {var_failed}
                     if not (dt[0] == dt).all():
                         warn('New time is unstructured')
 
-                    tstep = int(
-                        (
-                            datetime.datetime(1900, 1, 1, 0) + dt.mean()
-                        ).strftime('%H%M%S')
-                    )
-                    self.TSTEP = tstep
+                    self.TSTEP = _timedelta2tstep(dt.mean())
                 else:
                     self.TSTEP = 10000
 
@@ -893,9 +896,7 @@ Varable failures: {var_failed}
             outf.SDATE = int(newtimes[0].strftime('%Y%j'))
             outf.STIME = int(newtimes[0].strftime('%H%M%S'))
             if len(newtimes) > 1:
-                outf.TSTEP = int((datetime.datetime(1900, 1, 1, 0) +
-                                  (newtimes[1] - newtimes[0])
-                                  ).strftime('%H%M%S'))
+                outf.TSTEP = _timedelta2tstep(newtimes[1] - newtimes[0])
             if 'TFLAG' in outf.variables:
                 del outf.variables['TFLAG']
         outf.updatemeta()
@@ -1316,8 +1317,7 @@ def ncf2ioapi(
     tv[:yyyyjjj.size, :, 0] = yyyyjjj[:, None].repeat(nvar, 1)
     tv[:yyyyjjj.size, :, 1] = hhmmss[:, None].repeat(nvar, 1)
     dt = (times[-1] - times[0]).total_seconds() / (len(times) - 1)
-    tmpd = datetime.datetime(1900, 1, 1) + datetime.timedelta(seconds=dt)
-    ofile.TSTEP = int(tmpd.strftime('%H%M%S'))
+    ofile.TSTEP = _timedelta2tstep(datetime.timedelta(seconds=dt))
     ofile.SDATE = int(times[0].strftime('%Y%j'))
     ofile.STIME = int(times[0].strftime('%H%M%S'))
     # if (
